@@ -182,22 +182,44 @@ def locate(files, culprit):
     return None
 
 
+_LOADERS = {}
+
+
+def _one_loader(schema, ovs):
+    # one ConfigLoader per schema object and worker process: every scenario that comes its way is a rejected load,
+    # and the scratch directories are recycled, so the same URLs come back after failed loads of them
+    import ZConfig.loader
+    if id(schema) not in _LOADERS:
+        _LOADERS[id(schema)] = (schema, ZConfig.loader.ConfigLoader(schema))
+    return _LOADERS[id(schema)][1]
+
+
+def judge(got, c):
+    if got["r"] != "err":
+        return "accepted"
+    if got["kind"].startswith("internal:"):
+        return "internal-error"
+    if got["kind"] not in c["kinds"]:
+        return "error-kind"
+    if got["line"] != c["line"]:
+        return "line"
+    if got["res"] != c["file"]:
+        return "resource"
+    if got["kind"] == "conv" and (got["value"] != c["value"] or got["exc"] not in ("ValueError", "DataConversionError")):
+        return "conversion-error-value"
+    return None
+
+
 def compare(ws, sch, rec, item, emit):
     got, _ = scenario.run_real(ws, sch, rec, item)
     c = item["meta"]["culprit"]
-    why = None
-    if got["r"] != "err":
-        why = "accepted"
-    elif got["kind"].startswith("internal:"):
-        why = "internal-error"
-    elif got["kind"] not in c["kinds"]:
-        why = "error-kind"
-    elif got["line"] != c["line"]:
-        why = "line"
-    elif got["res"] != c["file"]:
-        why = "resource"
-    elif got["kind"] == "conv" and (got["value"] != c["value"] or got["exc"] not in ("ValueError", "DataConversionError")):
-        why = "conversion-error-value"
+    why = judge(got, c)
+    if why is None and not item["opts"]:
+        # the rejection says the same when the load goes through a loader object that has rejected other texts before
+        got, _ = scenario.run_real(ws, sch, rec, item, loader_factory=_one_loader)
+        why = judge(got, c)
+        if why is not None:
+            why = "long-lived loader: " + why
     if why is None and len(item["files"]) == 1 and not item["opts"]:
         # the same text from an open file object without a name: there is no URL to carry, the line is the same
         import io
